@@ -273,6 +273,6 @@ def replay(ctx, case):
 
 def run(ctx):
     q = ctx.tier == "quick"
-    hyp_run(ctx, "build", build_case, lambda c: check_build(ctx, c), 1500 if q else 40000)
-    hyp_run(ctx, "merge", merge_case(), lambda c: check_merge(ctx, c), 1500 if q else 40000)
+    hyp_run(ctx, "build", build_case, lambda c: check_build(ctx, c), 1500 if q else 20000)
+    hyp_run(ctx, "merge", merge_case(), lambda c: check_merge(ctx, c), 1500 if q else 20000)
     hyp_run(ctx, "cli", cli_case(), lambda c: check_cli(ctx, c), 60 if q else 1500)
